@@ -259,6 +259,59 @@ func runC13(c *Ctx) {
 		runLister(c, r)
 		check(r, fmt.Sprintf("random P=%v L=%v D=%v", p, l, d))
 	}
-	c.Rep.Rule = "lister+ticker in isolation (verif export) inside a synctest bubble with a fake list client: (period, list latency, consumption delay) on a grid with latency/period in {0,1/4,1/2,1,3/2,2,3,5} and delay/period in {0,1/2,1,2,3}, seeded random triples, stop requests (stop channel / context) swept across the list/tick cycle, and every 1st/2nd/3rd list call failing with {error, context.Canceled, context.DeadlineExceeded, not a list}. Observed: virtual timestamps of list start/end and result consumption, Done after stop, bubble deadlock. Oracles: lists keep being issued (count over the horizon), Done closes at once after stop, no goroutine left blocked; the trace is checked by the model-derived predicate trace_ok (one list at a time, each start >= previous consumption + 0.9 period and after the previous end). Non-trivial = run with >= 3 list calls."
+	// the ticker in isolation: in virtual time the delay before a tick IS
+	// nextPeriod().  Theorem C13_next_period_ns (binary64, Flocq): an integer
+	// number of nanoseconds within 1.5 ns of [0.9 P, 1.1 P + 1], for P <= 2^44 ns
+	{
+		periods := []time.Duration{1, 2, 3, 7, 10, 999, time.Microsecond, 333 * time.Microsecond, time.Millisecond, 123456789, time.Second,
+			time.Minute, 17 * time.Minute, time.Hour, 4*time.Hour + 53*time.Minute, 1 << 44}
+		nper := 20
+		if !c.Quick() {
+			nper = 400
+		}
+		var bad []string
+		samples := 0
+		lo, hi := 2.0, 0.0
+		dl := sched.Bubble(c.T, func() {
+			for _, p := range periods {
+				for k := 0; k < nper; k++ {
+					t0 := time.Now()
+					tk := kcache.NewVerifTicker(p, 0.1)
+					<-tk.Next()
+					got := time.Since(t0)
+					tk.Stop()
+					<-tk.Done()
+					samples++
+					// 0.9 P - 3/2 < got <= 1.1 P + 3/2, in exact integer arithmetic (x10)
+					if !(9*int64(p)-15 < 10*int64(got) && 10*int64(got) <= 11*int64(p)+15) {
+						bad = append(bad, fmt.Sprintf("period %d ns: the tick came after %d ns", int64(p), int64(got)))
+					}
+					if r := float64(got) / float64(p); p >= 1000 {
+						if r < lo {
+							lo = r
+						}
+						if r > hi {
+							hi = r
+						}
+					}
+				}
+			}
+		})
+		runs++
+		c.Rep.Evaluations += samples
+		replay := map[string]interface{}{"scenario": "ticker in isolation: delay before the first tick", "violations": bad}
+		if dl != "" {
+			replay["deadlock"] = dl
+			c.Violation("", "hang (bubble deadlock) in the ticker-in-isolation scenario", replay)
+		}
+		if len(bad) > 0 {
+			c.Violation("", "nextPeriod outside the proved bounds [0.9 P - 1.5 ns, 1.1 P + 1.5 ns]: "+bad[0], replay)
+		}
+		c.Stat("next_period_samples", samples)
+		c.Stat("next_period_min_permille", int(lo*1000))
+		c.Stat("next_period_max_permille", int(hi*1000))
+		c.DistinctCase("ticker-next-period")
+	}
+	c.Rep.Rule = "lister+ticker in isolation (verif export) inside a synctest bubble with a fake list client: (period, list latency, consumption delay) on a grid with latency/period in {0,1/4,1/2,1,3/2,2,3,5} and delay/period in {0,1/2,1,2,3}, seeded random triples, stop requests (stop channel / context) swept across the list/tick cycle, and every 1st/2nd/3rd list call failing with {error, context.Canceled, context.DeadlineExceeded, not a list}. Observed: virtual timestamps of list start/end and result consumption, Done after stop, bubble deadlock. Oracles: lists keep being issued (count over the horizon), Done closes at once after stop, no goroutine left blocked; the trace is checked by the model-derived predicate trace_ok (one list at a time, each start >= previous consumption + 0.9 period and after the previous end). Plus the ticker alone (verif export) in virtual time: the delay before a tick is nextPeriod() exactly; 16 periods from 1 ns to 2^44 ns x 20 (400) samples each lie within the bounds proved in binary64 (C13_next_period_ns). Non-trivial = run with >= 3 list calls."
 	c.Rep.Stats["runs"] = runs
 }
